@@ -1,1 +1,3 @@
 //! Workload generators (pure functions of seed + index).
+pub mod text;
+pub mod toks;
